@@ -86,7 +86,8 @@ if not only:
         f.write('Written by tools/run_corpus.py.  seeded/<ID>-n: changes by independent sub-agents (rounds 1-3);\n'
                 'mutants/<file>:<name>: one-line slips.  Each change is applied to a scratch copy of /repo; column 2 is the\n'
                 'pinned unit-test suite there, column 3 the verdict of the quick check(s).\n\n')
-        f.write('| change | pinned unit tests | check verdicts (first keys) |\n|---|---|---|\n')
+        notes = json.load(open(os.path.join(root, 'seeded', 'NOTES.json'))) if os.path.exists(os.path.join(root, 'seeded', 'NOTES.json')) else {}
+        f.write('| change | pinned unit tests | check verdicts (first keys) | note |\n|---|---|---|---|\n')
         for name, t, res in rows:
-            f.write('| %s | %s | %s |\n' % (name, t, '; '.join('%s %s %s' % (c, v, ', '.join(k)) for c, v, k in res)))
+            f.write('| %s | %s | %s | %s |\n' % (name, t, '; '.join('%s %s %s' % (c, v, ', '.join(k)) for c, v, k in res), notes.get(name, '')))
     print('wrote seeded/RESULTS.md')
